@@ -126,7 +126,8 @@ def classify(prog, changed):
             has_exp_float = any(isinstance(n, ast.Constant) and isinstance(n.value, float) and "e+" in repr(n.value) for n in ast.walk(ta))
             # the element is reported as update on every run, so the next run regenerates it: any syntax-tree preserving
             # difference (layout, merged implicit string concatenation) of such an element belongs to this finding
-            if site["op"] in ("in", "item") and (has_1tuple or has_exp_float):
+            # (a complex literal inside the element has the same effect: repr gives '(-2-3.5j)', the source tokens are '-2 - 3.5j')
+            if site["op"] in ("in", "item") and (has_1tuple or has_exp_float or _has_complex_const(ta)):
                 kinds.add("in-element-with-1-tuple-relaid-out-by-next-update")
                 continue
             return "second-run-changes-file"
